@@ -142,7 +142,9 @@ class C10(Prop):
     id = 'C10'
     level = 'exploration'
     rule = ('one case = request A (start/stop/restart/reload/incr/decr/set/rm'
-            '/quit, waiting; succeeding, failing synchronously, or failing '
+            '/quit/add, or - 15 % of the cases, on a daemon built from a real '
+            'configuration file - reloadconfig after an edit of the file; '
+            'waiting; succeeding, failing synchronously, or failing '
             'asynchronously through hook exceptions / exec failures) and '
             'state-changing requests B, C ... delivered after a seeded number '
             'of loop steps / kernel calls of A\'s progress, plus worker deaths; '
@@ -155,10 +157,24 @@ class C10(Prop):
     chunk = 100
     enum_hard_budget = {'quick': 60, 'thorough': 3000}
     A_KINDS = ['start', 'stop', 'restart', 'reload', 'incr', 'decr', 'set',
-               'rm', 'quit']
-    A_W = [3, 3, 3, 3, 2, 2, 2, 0.5, 0.3]
+               'rm', 'quit', 'add']
+    A_W = [3, 3, 3, 3, 2, 2, 2, 0.5, 0.3, 1.5]
     B_KINDS = ['start', 'stop', 'restart', 'reload', 'incr', 'decr', 'set',
-               'rm']
+               'rm', 'add']
+
+    @staticmethod
+    def make_add(rng, op):
+        """add a new watcher (started at once, with a warm-up so that the
+        operation stays in flight for a while)"""
+        k = rng.randrange(1000)
+        op['w'] = None
+        op.pop('case', None)
+        op['props'] = {'name': 'added%d' % k,
+                       'cmd': 'worker --marker=added%d' % k,
+                       'start': rng.random() < 0.8,
+                       'options': {'numprocesses': rng.choice([1, 2, 3]),
+                                   'warmup_delay': rng.choice([0, 0.3, 1.0])}}
+        return op
 
     def gen_cfg(self, rng, seed):
         cfg = gen.gen_base_cfg(rng, seed, nwatch=(1, 2, 2, 3),
@@ -173,7 +189,54 @@ class C10(Prop):
                 [1, 2, 6]))}
         return cfg
 
+    def gen_ini_case(self, rng, seed):
+        """reloadconfig as the operation in flight (after an edit of the
+        file that makes it spawn / kill with warm-up and grace periods) and
+        as the request that arrives during another operation"""
+        cfg = gen.gen_base_cfg(rng, seed, nwatch=(1, 2, 3), singleton_p=0.0,
+                               kinds=('obedient', 'slow', 'stubborn'),
+                               warmup=[0, 1, 2], numproc=(1, 2, 3))
+        # (configuration files take integer warm-up delays only)
+        cfg['warmup_delay'] = int(cfg.get('warmup_delay', 0))
+        cfg['from_ini'] = True
+        nw = len(cfg['watchers'])
+        ops = []
+        for _ in range(rng.choice([1, 2, 3])):
+            if rng.random() < 0.6:
+                w = rng.randrange(nw)
+                edit = {'op': 'editini', 'w': w, 'place': 'now'}
+                if rng.random() < 0.6:
+                    edit['np'] = rng.choice([1, 2, 3, 4, 5])
+                else:
+                    edit['env'] = {'X': str(rng.randrange(100))}
+                ops.append(edit)
+                a = {'op': 'req', 'cmd': 'reloadconfig', 'w': None,
+                     'props': {}, 'waiting': True, 'place': 'now'}
+            else:
+                a = gen.gen_request(rng, nw, rng.choices(
+                    self.A_KINDS[:7], self.A_W[:7])[0], waiting=True)
+            ops.append(a)
+            for _k in range(rng.choice([1, 2, 3])):
+                if rng.random() < 0.5:
+                    b = {'op': 'req', 'cmd': 'reloadconfig', 'w': None,
+                         'props': {}, 'waiting': rng.random() < 0.5,
+                         'place': gen.gen_place(rng, True)}
+                    if rng.random() < 0.5:
+                        ops.append({'op': 'editini', 'w': rng.randrange(nw),
+                                    'np': rng.choice([1, 2, 4]),
+                                    'place': 'now'})
+                else:
+                    b = gen.gen_request(rng, nw, rng.choice(self.B_KINDS[:8]),
+                                        waiting=rng.random() < 0.5,
+                                        place=gen.gen_place(rng, True))
+                ops.append(b)
+            ops.append(rng.choice([{'op': 'quiet', 'checks': 0},
+                                   {'op': 'wait', 'kind': 'replies'}]))
+        return {'cfg': cfg, 'ops': ops}
+
     def gen(self, rng, tier, seed):
+        if rng.random() < 0.15:
+            return self.gen_ini_case(rng, seed)
         cfg = self.gen_cfg(rng, seed)
         nw = len(cfg['watchers'])
         ops = []
@@ -183,6 +246,8 @@ class C10(Prop):
                                 waiting=True)
             if a['cmd'] == 'set' and rng.random() < 0.3:
                 a['props']['options'] = {'uid': 'no-such-user-xyz'}
+            if a['cmd'] == 'add':
+                self.make_add(rng, a)
             ops.append(a)
             for _k in range(rng.choice([1, 1, 2, 3])):
                 y = rng.random()
@@ -192,6 +257,8 @@ class C10(Prop):
                                         place=gen.gen_place(rng, True))
                     if rng.random() < 0.6 and a['w'] is not None:
                         b['w'] = a['w']
+                    if b['cmd'] == 'add':
+                        self.make_add(rng, b)
                     ops.append(b)
                 else:
                     ops.append(gen.gen_death(rng, nw, inflight=True))
@@ -236,6 +303,8 @@ class C10(Prop):
                                 nw, bk, waiting=bool(s % 2),
                                 place={'steps': s})
             b['w'] = 0 if s % 3 else b['w']
+            if bk == 'add':
+                self.make_add(random.Random('%d/%d/%d/a' % (master, i, s)), b)
             c = copy.deepcopy(base)
             c['ops'].insert(1, b)
             e2 = C10Episode(c)
